@@ -52,25 +52,25 @@ ASSUMPTIONS = [
     'get_section_average(start, end) returns',
 ]
 MIN_EVALS = {
-    'quick': {'rotation==ns*cos+we*sin': 60000, 'rotation.quadrant-identities': 5000, 'rotation.theta+180-negates': 7000,
-              'scan.angles==mod(linspace)': 1000, 'scan.values==measure(combination)': 1000,
-              'scan.half-circle-endpoints': 500, 'scan.offset+180-relation': 300,
-              'time_match.lag-removed(L>0)': 500, 'time_match.lag-removed(L<0)': 500, 'time_match.lag-removed(L=0)': 400,
-              'time_match.lag0-after-lagged-unchanged': 100, 'time_match.overlap==master': 900,
-              'time_match.values-are-arrays': 1500, 'time_match.length-unchanged': 1500,
-              'time_match.master-unchanged': 500,
-              'same_start.section-average==master': 900, 'same_start.master-unchanged': 450,
-              'same_start.shift-is-constant': 900},
-    'thorough': {'rotation==ns*cos+we*sin': 1200000, 'rotation.quadrant-identities': 100000,
-                 'rotation.theta+180-negates': 140000, 'scan.angles==mod(linspace)': 20000,
-                 'scan.values==measure(combination)': 20000, 'scan.half-circle-endpoints': 10000,
-                 'scan.offset+180-relation': 6000,
+    'quick': {'rotation==ns*cos+we*sin': 45000, 'rotation.quadrant-identities': 6000, 'rotation.theta+180-negates': 8000,
+              'scan.angles==mod(linspace)': 2000, 'scan.values==measure(combination)': 2000,
+              'scan.half-circle-endpoints': 1200, 'scan.offset+180-relation': 600,
+              'time_match.lag-removed(L>0)': 500, 'time_match.lag-removed(L<0)': 500, 'time_match.lag-removed(L=0)': 500,
+              'time_match.lag0-after-lagged-unchanged': 200, 'time_match.overlap==master': 850,
+              'time_match.values-are-arrays': 2200, 'time_match.length-unchanged': 2200,
+              'time_match.master-unchanged': 600,
+              'same_start.section-average==master': 1300, 'same_start.master-unchanged': 450,
+              'same_start.shift-is-constant': 1300},
+    'thorough': {'rotation==ns*cos+we*sin': 850000, 'rotation.quadrant-identities': 120000,
+                 'rotation.theta+180-negates': 165000, 'scan.angles==mod(linspace)': 42000,
+                 'scan.values==measure(combination)': 42000, 'scan.half-circle-endpoints': 24000,
+                 'scan.offset+180-relation': 12000,
                  'time_match.lag-removed(L>0)': 10000, 'time_match.lag-removed(L<0)': 10000,
-                 'time_match.lag-removed(L=0)': 8000, 'time_match.lag0-after-lagged-unchanged': 2000,
-                 'time_match.overlap==master': 18000, 'time_match.values-are-arrays': 30000,
-                 'time_match.length-unchanged': 30000, 'time_match.master-unchanged': 10000,
-                 'same_start.section-average==master': 18000, 'same_start.master-unchanged': 9000,
-                 'same_start.shift-is-constant': 18000},
+                 'time_match.lag-removed(L=0)': 10000, 'time_match.lag0-after-lagged-unchanged': 4000,
+                 'time_match.overlap==master': 16000, 'time_match.values-are-arrays': 44000,
+                 'time_match.length-unchanged': 44000, 'time_match.master-unchanged': 12000,
+                 'same_start.section-average==master': 27000, 'same_start.master-unchanged': 10000,
+                 'same_start.shift-is-constant': 27000},
 }
 EXHAUSTIVE = {'quick': 'every (cluster size 2..4, master index, lag-sign pattern in {0,+,-}^(size-1)) = 141 patterns, each '
                        'visited >= 10 times; every (offset kind, measure, points) triple of the scan',
